@@ -1,1 +1,4 @@
 // hook file for ntp-proto/src/config.rs: declares the per-property harness modules
+#[cfg(any(verif_all, verif_c39))]
+#[path = "/verif/harness/ntp-proto/c39.rs"]
+mod c39;
